@@ -1,9 +1,13 @@
 /-
 C20 model additions (core Lean only): rows of the measured oracle table
 `Oracle.regHW`, the byte sets denoted by a spec mask, the architectural notion
-"this width view of this register exists in hardware", the physical view
-conversion `register.as` (family lookup), virtual registers with `virtual.as`,
-and `reg.Collection` (per-kind `uint16` counters in a Go map).
+"this width view of this register exists in hardware" (`hwViewExists`; for a
+virtual register "some register of its kind has it", `hwSpecExists`), the
+physical view conversion `register.as` (family lookup), virtual registers with
+`virtual.as`, `reg.Collection` (per-kind `uint16` counters in a Go map), the
+hand-written naming table of the exported register variables (`varDenotes`),
+and the declarative clauses of the property (`RegOK`, `VarOK`, `IdentOK`, `AsOK`,
+`VAsOK`, `VNewOK`, `CtorOK`, `DefaultViewOK`, `FreshOK`, `ClassOK`, …).
 -/
 import AvoVerif.Model.Reg
 namespace Avo.Reg
@@ -220,6 +224,14 @@ def hwSpecExists (kind spec : Nat) : Bool :=
   (kind == kindVector && (spec == S128 || spec == S256 || spec == S512)) ||
   (kind == kindOpmask && spec == S64)
 
+/-- `reg.Allocation.LookupRegisterDefault` for a virtual register `(vid, vmask)`
+allocated to the physical register `(pkind, pidx, pid)`: the view of that
+physical register with the virtual register's mask when it exists in hardware,
+otherwise the virtual register itself — never another width. -/
+def DefaultViewOK (pkind pidx pid vid vmask : Nat) (rd : Nat × Nat) : Prop :=
+  rd.2 = vmask ∧ (if hwViewExists pkind pidx vmask = true then rd.1 = pid else rd.1 = vid)
+instance (a b c d e : Nat) (rd : Nat × Nat) : Decidable (DefaultViewOK a b c d e rd) := by unfold DefaultViewOK; infer_instance
+
 /-- Outcome of converting a virtual register of kind `kind` and identity `id`
 to spec `s`: it fails exactly when no register of the kind has that view in
 hardware; otherwise same identity, requested mask, its byte count as size. -/
@@ -301,15 +313,7 @@ def varDenotes : List (String × Denot) :=
 def pseudoVars : List (String × String) :=
   [("FramePointer", "FP"), ("ProgramCounter", "PC"), ("StaticBase", "SB"), ("StackPointer", "SP")]
 
-/-- The exported variable `name` holds register `r` (what its value reports):
-`r` is a register of avo's families (row `i` of `tbl`; `oracle` is aligned with
-`tbl`, so its `i`-th group `g` are the measurements of `r`'s assembler name in
-`r`'s width context); and when the name is a hardware register name: every
-measurement in `g` (there is at least one) assembled to exactly the register class, number,
-width and byte half the VARIABLE's name denotes, and `r` reports that class,
-number, width and those bytes.  A pseudo-register variable holds the pseudo
-register of that assembler name.  (Names outside both tables — none today — are
-only required to hold a register of the families.) -/
+/-- The hardware clause of `VarOK` (for a variable whose name denotes `d`). -/
 def VarHwOK (g : List HWRow) (r : RegRow) : Option Denot → Prop
   | none => True
   | some d =>
@@ -319,12 +323,22 @@ def VarHwOK (g : List HWRow) (r : RegRow) : Option Denot → Prop
 instance (g : List HWRow) (r : RegRow) (o : Option Denot) : Decidable (VarHwOK g r o) := by
   cases o <;> unfold VarHwOK <;> infer_instance
 
+/-- The pseudo-register clause of `VarOK`. -/
 def VarPseudoOK (r : RegRow) : Option String → Prop
   | none => True
   | some a => r.kind = kindPseudo ∧ r.name = a
 instance (r : RegRow) (o : Option String) : Decidable (VarPseudoOK r o) := by
   cases o <;> unfold VarPseudoOK <;> infer_instance
 
+/-- The exported variable `name` holds register `r` (what its value reports):
+`r` is a register of avo's families (row `i` of `tbl`; `oracle` is aligned with
+`tbl`, so its `i`-th group `g` are the measurements of `r`'s assembler name in
+`r`'s width context); and when the name is a hardware register name: every
+measurement in `g` (there is at least one) assembled to exactly the register class, number,
+width and byte half the VARIABLE's name denotes, and `r` reports that class,
+number, width and those bytes.  A pseudo-register variable holds the pseudo
+register of that assembler name.  (Names outside both tables — none today — are
+only required to hold a register of the families.) -/
 def VarOK (tbl : List RegRow) (oracle : List (List HWRow)) (name : String) (i : Nat) (r : RegRow) : Prop :=
   tbl[i]? = some r ∧ VarHwOK ((oracle[i]?).getD []) r (varDenotes.lookup name) ∧ VarPseudoOK r (pseudoVars.lookup name)
 instance (tbl : List RegRow) (oracle : List (List HWRow)) (name : String) (i : Nat) (r : RegRow) :
